@@ -14,6 +14,7 @@ import (
 	"strings"
 	"time"
 
+	"github.com/golang/protobuf/proto"
 	"github.com/openacid/slim/trie"
 )
 
@@ -152,6 +153,7 @@ func reload(st *trie.SlimTrie, spec *EncSpec) (*trie.SlimTrie, []byte, error) {
 	var err error
 	reloadCount++
 	used := reloadCount%2 == 0
+	viaProto := reloadCount%4 >= 2 // load through proto.Unmarshal(buf, st): Reset() first, then st.Unmarshal
 	done := make(chan struct{})
 	go func() {
 		defer close(done)
@@ -183,7 +185,16 @@ func reload(st *trie.SlimTrie, spec *EncSpec) (*trie.SlimTrie, []byte, error) {
 				touchAll(st2)
 			}
 		}
-		err = st2.Unmarshal(buf)
+		if viaProto {
+			// the other public way in and out: SlimTrie is a proto.Message
+			if pb, perr := proto.Marshal(st); perr != nil || !bytes.Equal(pb, buf) {
+				err = fmt.Errorf("proto.Marshal(st) differs from st.Marshal() (%v)", perr)
+				return
+			}
+			err = proto.Unmarshal(buf, st2)
+		} else {
+			err = st2.Unmarshal(buf)
+		}
 		if theCtx != nil {
 			theCtx.Landed()
 		}
